@@ -4,6 +4,31 @@ import json, os, sys
 HERE = os.path.dirname(os.path.dirname(os.path.abspath(__file__)))
 props = [json.loads(l) for l in open(os.path.join(HERE, "properties.jsonl"))]
 
+# classes added after the later seeding rounds (DESIGN.md §7.1); appended to the level text
+ADDENDA = {
+ "C05": " Also: valid ECDSA / EC-Schnorr triples whose recomputed point has x in [n, p) (built by public-key recovery), and "
+        "pre-hashed ECDSA instances with a steered recomputed point so that the submitted r is any structured neighbour of the "
+        "right value.",
+ "C06": " Also: structured differences (pairs that cancel under xor / sum, exchanged, inverted, rotated ...) at every "
+        "compare-and-accumulate site (OAEP label hash / PS / separator, PKCS#1 v1.5, Rabin redundancy, ECIES tag and padding), "
+        "and cofactor key agreement on curves with h > 1 with peer keys carrying small-order components.",
+ "C07": " Also: every point and field decoder with the output object already holding the object the bytes name (or its "
+        "negative / the library's own decode), on strings up to a multiple of the longest valid encoding, every tag and prefix.",
+ "C08": " Also: hostile caller-chosen parameters of the configuration entry points (fp_prime_set_pairf/_pmers/_dense, "
+        "*_param_set, fb_poly_set_*, rand_seed, recodings) with a monitor that compares the library context before and after "
+        "each call (members not owned by the call unchanged, length members within their tables, field usable afterwards); "
+        "gate builds initialise automatic variables with a pattern, so a result computed from a never-written local disagrees "
+        "with the models.",
+ "C13": " Also: builds whose default map is hash-and-increment (and SwiftEC, thorough), and messages that need 18-25 increments "
+        "of hash-and-increment (found offline with the model; the table supplies inputs only).",
+ "C14": " Also: short histories of AES calls with related keys (equal, shared 16/24-octet prefixes, last octet differing, "
+        "growing lengths): no state may be carried between calls.",
+ "C18": " Also: each identifier re-selected after histories of public calls that change the field / curve state without going "
+        "through the selection; the installed modulus, parameters, flags, map constants and an arithmetic battery are judged.",
+ "C20": " Also: groups of scalars longer than the order, k and -k of one magnitude for the curve routines, and trace builds with "
+        "another window width (RLC_WIDTH=2; 3 and 6 thorough).",
+}
+
 # id -> (category, text, note, technique, design_ref)
 CLAIMED = {
  "C01": ("exploration",
@@ -143,6 +168,7 @@ def main():
         pid = p["id"]
         if pid in CLAIMED and pid in READY:
             cat, text, note, tech, ref = CLAIMED[pid]
+            text = text + ADDENDA.get(pid, "")
             checks.append({
                 "property_id": pid,
                 "quick_cmd": "./vf check %s --tier quick" % pid,
